@@ -120,6 +120,14 @@ def recvStepCore (st : RecvState) (ts : List String) : RecvState × List String 
         -- descriptions go to whatever subscriber is current then, not to the host
         ({ st with sys := { σ := σ', lastPm := pm', lastPs := ps } },
           out1 ++ (delta w σ'.w).filter fun l => !l.startsWith "c reg ")
+      else if mode = "stale" then
+        -- the receiver is persisted, but what it wrote is lost: the next receiver starts from the
+        -- state of the previous persist together with the local span map of this one
+        let pm := persistMeta s.σ
+        let (ps, loc, w) := persist s.σ
+        let out1 := sortLines (delta s.σ.w w) ++ [showStack w.host.stack, "pm " ++ showMeta pm, "ps " ++ showSpans ps]
+        let σ' := restore s.lastPm s.lastPs loc w
+        ({ st with sys := { s with σ := σ' } }, out1 ++ delta w σ'.w)
       else (st, ["bad-op"])
     | some m =>
       let pm := persistMeta s.σ
